@@ -125,14 +125,20 @@ pub fn builtin_exp(x: f64) -> f64 {
 }
 
 fn frexp(s: f64) -> (f64, i16) {
-	if s == 0.0 {
-		(s, 0)
-	} else {
-		let lg = s.abs().log2();
-		let x = (lg - lg.floor() - 1.0).exp2();
-		let exp = lg.floor() + 1.0;
-		(s.signum() * x, exp as i16)
+	const EXP_MASK: u64 = 0x7ff << 52;
+	if s == 0.0 || !s.is_finite() {
+		return (s, 0);
 	}
+	let bits = s.to_bits();
+	let biased = ((bits & EXP_MASK) >> 52) as i16;
+	if biased == 0 {
+		// Subnormal, normalize it first
+		let (m, e) = frexp(s * f64::from_bits(0x4350_0000_0000_0000)); // 2^54
+		return (m, e - 54);
+	}
+	// Exact decomposition: keep sign and fraction, set exponent so that 0.5 <= |m| < 1
+	let m = f64::from_bits((bits & !EXP_MASK) | (1022 << 52));
+	(m, biased - 1022)
 }
 
 #[builtin]
